@@ -67,6 +67,10 @@ CHECKS = {
    text="On every hypergraph shape without repeated or empty edges within the bound, the three simpliciality measures (raw and normalised edit distance, mean face edit distance, simplicial fraction and the two derived scores) are compared with exhaustive subset enumeration; labels are unbounded orderable solver integers (each label order the Trie's sort can see is a path), members are listed in several orders, min_size in 1..4 and exclude_min_size are solver-chosen; scores in [0,1] or NaN and equal to 1 on downward-closed shapes. A second harness forks labels exhaustively over [-3,3] under real hashing.",
    note="Oracle = brute-force enumeration on the concrete incidence shape; floats compared with tolerance 1e-9.",
    technique="bounded symbolic execution (z3) of the simpliciality code with symbolic labels against an exhaustive-enumeration oracle"),
+ "C11": dict(level="other", ref="5/C11 (section 10.7)",
+   text="The real writers and readers of xgi.readwrite (write_hif/read_hif and the HIF collections, write_json/read_json and its collections, write/read_edgelist, write/read_bipartite_edgelist incl. dual=True) run on every small shape of the three classes with node labels, edge ids and attribute values as unbounded solver integers; the network read back must equal the one written (class, nodes incl. isolated, edges incl. empty, members or tail/head, three attribute levels for the JSON formats; incidences, labels under the documented cast, edge order, comment lines ignored for the text formats, seven writer/reader delimiter pairs), a path is overwritten not appended to, the input is untouched, and an automatic edge added to a network read from a file replaces nothing. During exploration the file boundary is a contract stub (in-memory open(), JSON data model, rendered labels as opaque delimiter-free tokens); every solver model is replayed with real files in a temporary directory and the real json module. The incidence-matrix text format (1 x m and n x 1 included) has no solver variable and runs as an exhaustive concrete grid, labelled as such.",
+   note="Reduced reach, stated: the solver quantifies labels, ids and attribute values; the bytes on disk are modelled by contract during exploration (real only in replays). String-level behaviour of split/strip/find on labels containing delimiter, comment or whitespace characters is excluded by the property itself; JSON representability of exotic value types and numpy float formatting are outside.",
+   technique="bounded symbolic execution (z3) of the real file writers/readers with the file boundary as a contract stub; concrete replay through real files"),
  "C12": dict(level="other", ref="5/C12",
    text="For every hypergraph shape within the bound (isolated nodes, empty/duplicate/singleton edges included) incidence, adjacency (weighted/thresholded by s), degree vector, intersection profile, clique-motif matrix, adjacency tensor, order-d, multi-order and normalised Laplacians are compared entrywise through their returned index maps with brute-force definitions; symmetry, zero diagonal, zero row sums; sparse equals dense for every argument combination; degenerate cases (no edges, none of the requested order). Node labels and edge ids are unbounded solver integers, order/s/flags are solver-chosen.",
    note="Reduced reach, stated: the numeric kernels are scipy/numpy C code, so the solver quantifies only the labelling and the small integer/boolean parameters; shapes are enumerated. Positive semidefiniteness is not decided (follows from symmetry and the B^T B form).",
@@ -81,7 +85,6 @@ CHECKS = {
    technique="bounded symbolic execution (z3) + windowed label forking: snapshot-before = snapshot-after over an introspected API surface"),
 }
 NOT_APPLICABLE = {
- "C11": "disk round trips: every value that reaches a file passes through json/numpy C encoders which reject or realise a symbolic proxy, so no solver variable can cross the file boundary; in-memory halves are decided under C10/C04",
  "C20": "layouts/drawing: outputs are floating-point coordinates and matplotlib collections produced in networkx/numpy/matplotlib C code; labels reach no decision there, nothing for a solver to decide",
 }
 PENDING = "check not built yet in this revision (planned per DESIGN.md section 5)"
